@@ -106,7 +106,7 @@ reg("C03", level="model_checking", overlay="world",
     technique="stateless deviation-bounded exploration of network/clock behaviours around the real client (and real listener) over an in-memory network, ground-truth oracle",
     level_text="The real IPClient/SCIONClient code (request construction, interleaved state machine, receive loop, timestamp extraction) runs in a bubble over vnet; the explorer enumerates every combination of loss, duplication, staleness, delays, server clock steps, port reuse and timestamp availability inside the deviation bound, and each accepted measurement is matched against the harness's ground-truth log of exchanges.",
     budget={"quick": 150, "thorough": 1200}, workers={"quick": 16, "thorough": 16},
-    assumptions=["clock readings are strictly increasing (1 ns per reading)", "delays and offsets come from small alphabets; the inequality is scale-free",
+    assumptions=["clock readings are strictly increasing (1 ns per reading)", "a kernel transmit timestamp is 2 us later than the sender's preceding clock reading (never equal to it)", "delays and offsets come from small alphabets; the inequality is scale-free",
                  "hardware timestamping (iface != \"\") is not modelled"])
 
 reg("C05", level="model_checking", overlay="world",
